@@ -771,12 +771,18 @@ func readConfig(e *storeEnv, d ocispec.Descriptor) (*configDoc, error) {
 
 // compressionOfMediaType: what a layer media type says about the compression.
 func compressionOfMediaType(mt string) string {
-	switch {
-	case strings.HasSuffix(mt, "+gzip"), strings.HasSuffix(mt, ".gzip"):
+	// exact table of the layer media types that exist (OCI image spec and containerd's images
+	// package): a suffix test would accept mixtures such as "...docker...diff.tar+gzip", which
+	// images.DiffCompression and every consumer treat as "no known compression"
+	switch mt {
+	case "application/vnd.oci.image.layer.v1.tar+gzip", "application/vnd.oci.image.layer.nondistributable.v1.tar+gzip",
+		"application/vnd.docker.image.rootfs.diff.tar.gzip", "application/vnd.docker.image.rootfs.foreign.diff.tar.gzip":
 		return "gzip"
-	case strings.HasSuffix(mt, "+zstd"), strings.HasSuffix(mt, ".zstd"):
+	case "application/vnd.oci.image.layer.v1.tar+zstd", "application/vnd.oci.image.layer.nondistributable.v1.tar+zstd",
+		"application/vnd.docker.image.rootfs.diff.tar.zstd":
 		return "zstd"
-	case strings.HasSuffix(mt, ".tar"):
+	case "application/vnd.oci.image.layer.v1.tar", "application/vnd.oci.image.layer.nondistributable.v1.tar",
+		"application/vnd.docker.image.rootfs.diff.tar", "application/vnd.docker.image.rootfs.foreign.diff.tar":
 		return "tar"
 	}
 	return "unknown(" + mt + ")"
